@@ -260,18 +260,25 @@ Section G.
   Definition node_next (g : graph) (a : nat) : nat * nat :=
     match nth_error (gnodes g) a with Some n => nnext n | None => (cap, cap) end.
 
+  (* the _nx variants take the node's next pair explicitly (StableGraph looks it up through get_node) *)
+  Definition neighbors_undirected_nx (g : graph) (a : nat) (nx : nat * nat) : res (list (nat * nat)) :=
+    neighbors_raw g a (fst nx) (snd nx).
+
+  Definition neighbors_directed_nx (directed : bool) (g : graph) (a : nat) (nx : nat * nat) (k : nat)
+    : res (list (nat * nat)) :=
+    if directed then
+      neighbors_raw g cap (if Nat.eqb k 0 then fst nx else cap) (if Nat.eqb k 0 then cap else snd nx)
+    else neighbors_undirected_nx g a nx.
+
   Definition neighbors_undirected (g : graph) (a : nat) : res (list (nat * nat)) :=
-    neighbors_raw g a (fst (node_next g a)) (snd (node_next g a)).
+    neighbors_undirected_nx g a (node_next g a).
 
   Definition neighbors_directed (directed : bool) (g : graph) (a k : nat) : res (list (nat * nat)) :=
-    if directed then
-      let nx := node_next g a in
-      neighbors_raw g cap (if Nat.eqb k 0 then fst nx else cap) (if Nat.eqb k 0 then cap else snd nx)
-    else neighbors_undirected g a.
+    neighbors_directed_nx directed g a (node_next g a) k.
 
   (* Edges iterator: (index, source, target, weight) as EdgeReference reports them *)
-  Definition edges_directed (directed : bool) (g : graph) (a k : nat) : res (list (nat * (nat * nat) * EW)) :=
-    let nx := node_next g a in
+  Definition edges_directed_nx (directed : bool) (g : graph) (a : nat) (nx : nat * nat) (k : nat)
+    : res (list (nat * (nat * nat) * EW)) :=
     let do_out := orb (negb directed) (Nat.eqb k 0) in
     let do_in := orb (negb directed) (negb (Nat.eqb k 0)) in
     (* reverse = Some(direction.opposite()) when undirected *)
@@ -288,8 +295,15 @@ Section G.
                                  else [(i, if rev_in then swapp (enode ed) else enode ed, ewt ed)]
                              | None => [] end) ins))).
 
+  Definition edges_directed (directed : bool) (g : graph) (a k : nat) : res (list (nat * (nat * nat) * EW)) :=
+    edges_directed_nx directed g a (node_next g a) k.
+
+  Definition edges_connecting_nx (directed : bool) (g : graph) (a : nat) (nx : nat * nat) (b : nat)
+    : res (list (nat * (nat * nat) * EW)) :=
+    rmap (filter (fun '(_, nd, _) => Nat.eqb (snd nd) b)) (edges_directed_nx directed g a nx 0).
+
   Definition edges_connecting (directed : bool) (g : graph) (a b : nat) : res (list (nat * (nat * nat) * EW)) :=
-    rmap (filter (fun '(_, nd, _) => Nat.eqb (snd nd) b)) (edges_directed directed g a 0).
+    edges_connecting_nx directed g a (node_next g a) b.
 
   Definition externals (directed : bool) (g : graph) (k : nat) : list nat :=
     flat_map (fun '(i, n) =>
